@@ -152,6 +152,19 @@ def call_value(fr, fv, args, kw, extra, n):
         return vals[0] if len(vals) == 1 else ('tuple', tuple(vals))
     if fv[0] == 'builtin':
         return builtin_value(fr, fv[1], args, kw, n)
+    if fv[0] == 'localfn' and fv[1] in fr.ctx.__dict__.get('local_funcs', {}) and not extra and fr.depth < fr.ctx.max_depth:
+        fn, owner = fr.ctx.local_funcs[fv[1]]
+        bound, problems = bind_args(fn, args, kw, extra)
+        if not problems:
+            sub = SE.Frame(fr.ctx, fn, bound, depth=fr.depth + 1, pc=fr.pc, loops=fr.loops)
+            closure = dict(owner.env)
+            closure.update(sub.env)                  # parameters shadow the enclosing names
+            sub.env = closure
+            sub.alias = {p_: p_ for p_ in fn.params}
+            sub.perm = list(fr.perm)
+            sub.ret_perm = list(fr.ret_perm)
+            res = sub.run()
+            return NONE if res is None else res
     if fv[0] == 'lambda' and fv[1] in fr.ctx.lambdas and not kw and not extra:
         node, captured, mod_, owner = fr.ctx.lambdas[fv[1]]
         names = [a.arg for a in node.args.args]
@@ -388,6 +401,18 @@ def builtin(fr, name, n):
         ast.copy_location(comp, n)
         ast.fix_missing_locations(comp)
         return fr.ex(comp)
+    if name == 'map' and len(n.args) >= 2 and not n.keywords and not any(isinstance(a, ast.Starred) for a in n.args) and 'map' not in fr.env:
+        fv0 = fr.ex(n.args[0]) if isinstance(n.args[0], ast.Name) else None
+        if isinstance(n.args[0], ast.Lambda) or (fv0 is not None and fv0[0] in ('lambda', 'localfn', 'funcref')):
+            # map(f, xs, ys, ...) for a function of the program == (f(x, y, ...) for x, y, ... in zip(xs, ys, ...)): the comprehension's normal form
+            names = [ast.Name(f'_map_x{i}', ast.Load()) for i in range(len(n.args) - 1)]
+            tgt = ast.Name('_map_x0', ast.Store()) if len(names) == 1 else ast.Tuple([ast.Name(x.id, ast.Store()) for x in names], ast.Store())
+            it = n.args[1] if len(names) == 1 else ast.Call(func=ast.Name('zip', ast.Load()), args=list(n.args[1:]), keywords=[])
+            comp = ast.GeneratorExp(elt=ast.Call(func=n.args[0], args=names, keywords=[]),
+                                    generators=[ast.comprehension(target=tgt, iter=it, ifs=[], is_async=0)])
+            ast.copy_location(comp, n)
+            ast.fix_missing_locations(comp)
+            return fr.ex(comp)
     args = args_of(fr, n)
     kw, extra = kwargs_of(fr, n)
     return builtin_value(fr, name, args, kw, n)
